@@ -459,6 +459,15 @@ func Parse(src string) (f *File, err error) {
 	if len(stack) != 0 {
 		return nil, &LexError{"unbalanced " + stack[len(stack)-1], toks[len(toks)-1].line}
 	}
+	// a vernacular keyword inside a term means the printer emitted a declaration where an expression
+	// or type belongs: the sentence structure Coq sees is not the one intended
+	atStart := true
+	for _, t := range toks {
+		if t.kind == tIdent && !atStart && (t.text == "Definition" || t.text == "Theorem" || t.text == "Notation") {
+			return nil, &LexError{"vernacular keyword " + t.text + " inside a term", t.line}
+		}
+		atStart = t.kind == tDot
+	}
 	p := &parser{toks: toks}
 	f = &File{Comments: comments}
 	defer func() {
